@@ -16,6 +16,26 @@ func props() map[string]Prop {
 				"the reference decoder in /verif/ref follows the documented v1 layout",
 			},
 		},
+		{
+			ID: "C10", Level: "exploration",
+			Units: []Unit{
+				{Name: "format", Pkg: "internal/counter", Harness: "internal_counter", Run: "^TestVerifC10$", Instrument: counterInstr, Timeout: 30 * time.Minute},
+			},
+			Assume: []string{
+				"the reference decoder/writer in /verif/ref follow the documented v1 layout (hash pinned by FNV-1a definition)",
+				"several writers are emulated by independent mappings (own fd + MAP_SHARED) of one file inside one process, operating sequentially; concurrent writers are C04's subject",
+			},
+		},
+		{
+			ID: "C03", Level: "exploration",
+			Units: []Unit{
+				{Name: "sched", Pkg: "internal/counter", Harness: "internal_counter", Run: "^TestVerifC03$", Instrument: counterInstr, Timeout: 40 * time.Minute},
+			},
+			Assume: []string{
+				"interleavings are explored at the granularity of the instrumented scheduling points (every atomic operation, lock acquisition, Once.Do and fs call in internal/counter and internal/mmap); sequential consistency between points",
+				"'waits forever' is judged as: no return within 60000 scheduling steps while all other threads have finished",
+			},
+		},
 	}
 	m := map[string]Prop{}
 	for _, p := range ps {
